@@ -231,6 +231,15 @@ theorem header_at (P : Params) (hP : P.Ok) (d : Nat) (o : POpts) (S : LSchema)
       refine ⟨r2, ?_, a2, hm'⟩
       simp only [pHeader, c1, c2, e1, pMetas, e2, flags_rt]
 
+/-- skipping an annotation with the widths it was printed with lands behind it -/
+theorem metaSkip_at (P : Params) (hP : P.Ok) (d : Nat) (name val : Bytes) (x y : List Op) (hx : strOps P_METANAME name = some x)
+    (hy : strOps P_METAVAL val = some y) (K : List Op) (r : R) (h : At P d (x ++ (y ++ K)) r) :
+    At P d K (pMetaSkipW P P_METANAME P_METAVAL r) := by
+  obtain ⟨r1, r2, e1, e2, a2⟩ := str_at P hP d P_METANAME name x hx _ r h
+  obtain ⟨r3, r4, e3, e4, a4⟩ := str_at P hP d P_METAVAL val y hy _ r2 a2
+  simp only [pMetaSkipW, e1, e2, e3, e4]
+  exact a4
+
 /-! ### term values -/
 
 /-- the value is the canonical form of a value of the type (what a term node of a libyang tree holds) -/
